@@ -420,6 +420,8 @@ def container_scripts_systematic():
                 continue
             # factory, draws, a copy made after k0 draws continues like the original, both share the container
             for k0 in (0, 1, 2):
+                # the generator is the program's: what it yields after k0 draws shows how far the wrapper advanced it
+                out.append((cm, el, ["f:0", f"d:0:{k0}", "g:1", "d:0:1", "g:2"]))
                 out.append((cm, el, ["f:0", f"d:0:{k0}", "cc:1:0", "d:1:3", "d:0:3", "ca:0:0", "d:0:2"]))
                 out.append((cm, el, ["f:0", "f:1", f"d:0:{k0}", "d:1:1", "ca:1:0", "d:1:3", "d:0:3"]))
                 out.append((cm, el, ["f:0", f"d:0:{k0}", "mc:1:0", "d:1:3", "f:0", "d:0:1", "ma:0:1", "d:0:2"]))
@@ -464,8 +466,10 @@ def random_cscript(r, size, mutable, nacts):
                 i = r.choice(cand)
             acts.append(f"{how}:{i}:{j}")
             filled.add(i)
-        elif k < 85:
+        elif k < 82:
             acts.append(f"w:{r.below(size)}:{r.range(-999, 999)}")
+        elif k < 88:
+            acts.append(f"g:{r.range(1, 2)}")
         elif mutable:
             acts.append(f"t:{r.choice(sorted(filled))}:{r.range(-999, 999)}")
     return acts
